@@ -9,3 +9,48 @@ claim("C02",
   "Runtime monitoring: nine workload families (ascending, descending, zig-zag, random, Fibonacci-shaped trees then deletions, delete-root/min/max, interleaved) with distinct values; after every mutation the shape is rebuilt from the public traversals and |hl-hr|<=1 plus the 1.4405*log2(n+2) depth bound are asserted; comparator invocations per Contains/Add/Remove are bounded by 4*depth bound+8. Held on the histories of this run.",
   "Trusted: Go toolchain; shape reconstruction is exact only for distinct values (duplicates are covered by the comparator-count proxy and by C01).",
   "DESIGN.md section 4, C02")
+claim("C07",
+  "reference-model lock-step monitor (sorted-slice model) over PRNG-generated histories; strict-order regime (full contract) and weak-order regime (invariant half)",
+  "Runtime monitoring: NewSorted/NewSortedOrdered over random inputs (nil, empty, duplicates, spare capacity), then Add / Remove(present|absent) / RemoveAt / Get / Index / Contains / out-of-range calls; after every call the contents (Get over 0..Len-1), String and the caller's input slice (incl. spare capacity) are compared with the model. Weak-order regime with tagged elements checks sortedness and exact multiset only. Held on the histories of this run.",
+  "Trusted: Go toolchain; the sorted-slice model; five element/order families stand in for 'any less function'.",
+  "DESIGN.md section 4, C07")
+claim("C08",
+  "cell-model monitor: every call mirrored on a [][]int of unique values, whole grid re-read through Get after every mutation; all shapes 0..6 x 0..6 systematically plus random flat/tall shapes",
+  "Runtime monitoring: per shape every cell is Set (random order) and the whole grid re-read, every out-of-bounds coordinate in -2..w+1 x -2..h+1 must panic and change nothing, Row/RowSpan are checked for contents and liveness in both directions, Fill for all corner orders, Clone independence both ways, New2DFilled, New2DFromJagged (shorter/longer/more/fewer rows) and String. Held on the shapes and calls of this run.",
+  "Trusted: Go toolchain; the cell model. RowSpan with x1 > x2 is outside the property and not generated.",
+  "DESIGN.md section 4, C08")
+claim("C11",
+  "reference-model lock-step monitor (slice-of-pairs model); ALL histories of length <= 4 over the 25 mutating calls enumerated in every run, plus random longer histories with Clone",
+  "Runtime monitoring: after every call GetForward/ContainsForward over all keys, GetReverse/ContainsReverse over all values, Len, Range (each pair exactly once; early stop honoured) and the inverse-bijection invariant itself are checked on every live map (originals and clones). The systematic part enumerates every history of up to 4 calls of {Add(k,v) 16, RemoveForward 4, RemoveReverse 4, Clear} from the zero value. Held on the histories of this run.",
+  "Trusted: Go toolchain; the pair-list model; key/value universes of size 4.",
+  "DESIGN.md section 4, C11")
+claim("C12",
+  "model-comparison monitor: expected sequence rebuilt in a fresh slice; systematic sweep len 0..8 x spare capacity 0..8 x every index x inserted length 0..5 x removal length, sentinels in spare capacity",
+  "Runtime monitoring: Insert/InsertSlice/Remove/RemoveSlice results compared element-wise with the splice model for every valid position and capacity in the systematic range and for sampled positions on random lengths up to 5000; Fill/Repeat for every length 0..300, Reverse 0..65, Concat/Clone contents and memory independence, Grow zero-extension over sentinel-filled capacity. Held on the inputs of this run.",
+  "Trusted: Go toolchain; the copy-based reference.",
+  "DESIGN.md section 4, C12")
+claim("C13",
+  "naive-loop reference monitor over every (n, size) with n 0..64, size 1..70 in every run plus random n <= 5000",
+  "Runtime monitoring: Chunk (count, every piece's length/contents, no empty piece, concatenation == input), Windowed, Pairs and the sequence of callback arguments of ChunkFunc/WindowedFunc/PairsFunc are compared with naive loops. Held on the inputs of this run.",
+  "Trusted: Go toolchain; the naive loops. Aliasing of pieces with the input is not part of the property and not judged.",
+  "DESIGN.md section 4, C13")
+claim("C14",
+  "naive-loop reference monitor with order/position-sensitive callbacks; inputs snapshotted and compared after each call, every returned slice/map scribbled on; ALL slices over a 3-letter alphabet up to length 6 in every run plus random inputs",
+  "Runtime monitoring: Fold/FoldReverse (non-commutative accumulators, call counts), Map/MapErr (call-order-sensitive converter, failure at chosen positions), Filter (position mask), Any/All, Index*/Contains*, Distinct/DistinctFunc, Except/ExceptSet (both Set implementations), GroupBy/CountBy, the Trim family, TryGet/SafeGet/SafeGetOr/Last and the map helpers are compared with reference loops; inputs must be unchanged and results must not share memory with inputs. Held on the inputs of this run.",
+  "Trusted: Go toolchain; the reference loops. TrimFunc's doc comment says 'unwanted if the callback returns false' but the parameter is named unwanted and Trim trims what IS unwanted: the reference follows the code's evident intent. Trim results are compared by contents (sub-slice identity is not demanded).",
+  "DESIGN.md section 4, C14")
+claim("C15",
+  "post-condition monitor: permutation + adjacent order + tie order via tagged elements; BinarySearch against a linear scan; ALL slices over {0,1,2} up to length 7 in every run plus random slices up to length 3000",
+  "Runtime monitoring: every Sort* variant is run on tagged copies of each input and the result is checked to be a permutation, ordered in the promised direction and (Stable variants) with ties in original order; BinarySearch/BinarySearchFunc are compared with a linear lower-bound scan for present/absent/below/above targets; ShuffleRand is a permutation and deterministic in the generator, Shuffle a permutation. Held on the inputs of this run.",
+  "Trusted: Go toolchain.",
+  "DESIGN.md section 4, C15")
+claim("C16",
+  "reference-model lock-step monitor (slice models) from the zero value, op mix biased to drain to empty and refill",
+  "Runtime monitoring: after every Enqueue/Dequeue/Push/Pop the return values, Len and two consecutive Peeks of both containers are compared with slice models; empty Dequeue/Pop/Peek must return (zero,false) and leave the container usable. Held on the histories of this run.",
+  "Trusted: Go toolchain; the slice models.",
+  "DESIGN.md section 4, C16")
+claim("C20",
+  "reference-computation monitor: exhaustive all pairs/triples of int8 and uint8, all 16-bit values, boundary-dense 32/64-bit/float samples; thorough adds all 2^32 values of int32/uint32 for the one-argument functions",
+  "Runtime monitoring against references independent of the implementation (strconv digit counts, widened and big-integer arithmetic, explicit comparisons): Min/Max/Clamp/Sum/Product/Compare/Less/Coal over ALL pairs and triples of int8 and uint8, Digits10/DigitsSign10/Abs/Clamp01/IsZero over all 8- and 16-bit values (named types included), boundary-dense samples of int32/int64/int/uint/uintptr/float32/float64/string/complex, and the utility helpers (Zero, ZeroOf, IsZero with method, Tern, TernCast, Ref, DerefZero, IsNil). Exhaustive only where stated.",
+  "Trusted: Go toolchain, strconv, math/big. NaN excluded; Abs(min) excluded ('where representable').",
+  "DESIGN.md section 4, C20")
